@@ -220,6 +220,35 @@ impl Padding {
     }
 }
 
+/// Fill in the defaults of convolution attributes that depend on the number of
+/// spatial dimensions.
+///
+/// When an ONNX Conv, ConvInteger or ConvTranspose operator omits
+/// `kernel_shape`, the spatial rank is not known when the model is loaded, so
+/// omitted `strides`, `dilations` and `pads` attributes are left empty. The
+/// rank is known from the kernel at run time.
+pub(crate) fn conv_attrs_or_defaults(
+    spatial_dims: usize,
+    strides: &[usize],
+    dilations: &[usize],
+    padding: Padding,
+) -> (SmallVec<[usize; 2]>, SmallVec<[usize; 2]>, Padding) {
+    let or_ones = |values: &[usize]| -> SmallVec<[usize; 2]> {
+        if values.is_empty() {
+            SmallVec::from_elem(1, spatial_dims)
+        } else {
+            values.into()
+        }
+    };
+    let padding = match padding {
+        Padding::Fixed(pads) if pads.is_empty() => {
+            Padding::Fixed(SmallVec::from_elem(0, spatial_dims * 2))
+        }
+        padding => padding,
+    };
+    (or_ones(strides), or_ones(dilations), padding)
+}
+
 /// Construct a [`Padding::Fixed`] from a slice of paddings for each size.
 impl<S: AsRef<[usize]>> From<S> for Padding {
     fn from(val: S) -> Padding {
